@@ -10,8 +10,10 @@ import (
 	"net"
 	"os"
 	"os/exec"
+	"runtime"
 	"sort"
 	"strings"
+	"sync"
 	"sync/atomic"
 	"time"
 
@@ -47,8 +49,8 @@ type c10hFault struct {
 
 // c10hCase describes one case completely (it is also the replay input).
 type c10hCase struct {
-	Cmd     string `json:"cmd"` // set add replace append prepend delete touch get gat get2
-	Key     string `json:"key"` // the client key the command names (get2: the first of the two)
+	Cmd     string `json:"cmd"`     // set add replace append prepend delete touch get gat get2
+	Key     string `json:"key"`     // the client key the command names (get2: the first of the two)
 	Present bool   `json:"present"` // the key holds the old value before the call
 	OldLen  int    `json:"old_len"`
 	SeedOld uint64 `json:"seed_old"`
@@ -602,48 +604,76 @@ type c10hDone struct {
 	crash *rig.GoFailure
 }
 
-const c10hBatch = 100
+const c10hBatch = 400
 
-// c10hRunCases runs the cases in child processes, c10hBatch per child, in order. When a child
-// dies the first case without a line is the one that killed it; the rest of the batch goes to a
-// fresh child.
+// c10hRunCases runs the cases in child processes, at most c10hBatch consecutive cases per child
+// (starting a process costs about 0.25 s: the init of rend's packages), a few children at a time
+// (they share nothing; the results are kept by index). When a child dies the first case without
+// a line is the one that killed it; the rest of the batch goes to a fresh child.
 func c10hRunCases(cases []c10hCase) []c10hDone {
 	res := make([]c10hDone, len(cases))
-	for lo := 0; lo < len(cases); lo += c10hBatch {
-		hi := lo + c10hBatch
+	par := runtime.NumCPU() / 2
+	if par > 8 {
+		par = 8
+	}
+	if par < 2 {
+		par = 2
+	}
+	batch := (len(cases) + par - 1) / par
+	if batch > c10hBatch {
+		batch = c10hBatch
+	}
+	if batch < 50 {
+		batch = 50
+	}
+	sem := make(chan struct{}, par)
+	var wg sync.WaitGroup
+	for lo := 0; lo < len(cases); lo += batch {
+		hi := lo + batch
 		if hi > len(cases) {
 			hi = len(cases)
 		}
-		for next := lo; next < hi; {
-			n, phase, stderr, stalled, werr := c10hSpawn(cases[next:hi], res[next:hi])
-			next += n
-			if next >= hi {
-				break
-			}
-			c := cases[next]
-			crashed := strings.Contains(stderr, "panic:") || strings.Contains(stderr, "fatal error:") || strings.Contains(stderr, "SIGSEGV")
-			switch {
-			case stalled:
-				res[next].crash = &rig.GoFailure{Kind: "counterexample", What: "the process running a chunked handler call under a backend fault made no progress for 60 s (the 10 s limit on the call inside the process did not fire) and was killed",
-					Input: c, Detail: fmt.Sprintf("%s with plan %+v, part of the case: %s; stderr: %s", c.Cmd, c.Plan, phase, tailStr(stderr, 600))}
-			case crashed:
-				what := "the chunked handler crashed the process during a call under a backend fault (panic in a goroutine of the code under test)"
-				switch {
-				case phase == "setup":
-					what = "the chunked handler crashed the process during the fault-free sets that prepare the case (panic in a goroutine of the code under test)"
-				case phase == "after":
-					what = "the chunked handler crashed the process during the fault-free get / gat on a fresh connection that follow a call under a backend fault (panic in a goroutine of the code under test)"
-				case len(c.Plan) == 0:
-					what = "the chunked handler crashed the process during a fault-free call (panic in a goroutine of the code under test)"
-				}
-				res[next].crash = &rig.GoFailure{Kind: "counterexample", What: what, Input: c, Detail: c10hCrashDetail(stderr)}
-			default:
-				rig.Die("c10h: the child process ended (%v) before case %d of %d, not by a crash of the code under test: %s", werr, next, len(cases), tailStr(stderr, 3000))
-			}
-			next++
-		}
+		wg.Add(1)
+		sem <- struct{}{}
+		go func(lo, hi int) {
+			defer func() { <-sem; wg.Done() }()
+			c10hRunBatch(cases, res, lo, hi)
+		}(lo, hi)
 	}
+	wg.Wait()
 	return res
+}
+
+// c10hRunBatch: cases[lo:hi] in one child, in order; after a death the rest in a fresh child
+func c10hRunBatch(cases []c10hCase, res []c10hDone, lo, hi int) {
+	for next := lo; next < hi; {
+		n, phase, stderr, stalled, werr := c10hSpawn(cases[next:hi], res[next:hi])
+		next += n
+		if next >= hi {
+			break
+		}
+		c := cases[next]
+		crashed := strings.Contains(stderr, "panic:") || strings.Contains(stderr, "fatal error:") || strings.Contains(stderr, "SIGSEGV")
+		switch {
+		case stalled:
+			res[next].crash = &rig.GoFailure{Kind: "counterexample", What: "the process running a chunked handler call under a backend fault made no progress for 60 s (the 10 s limit on the call inside the process did not fire) and was killed",
+				Input: c, Detail: fmt.Sprintf("%s with plan %+v, part of the case: %s; stderr: %s", c.Cmd, c.Plan, phase, tailStr(stderr, 600))}
+		case crashed:
+			what := "the chunked handler crashed the process during a call under a backend fault (panic in a goroutine of the code under test)"
+			switch {
+			case phase == "setup":
+				what = "the chunked handler crashed the process during the fault-free sets that prepare the case (panic in a goroutine of the code under test)"
+			case phase == "after":
+				what = "the chunked handler crashed the process during the fault-free get / gat on a fresh connection that follow a call under a backend fault (panic in a goroutine of the code under test)"
+			case len(c.Plan) == 0:
+				what = "the chunked handler crashed the process during a fault-free call (panic in a goroutine of the code under test)"
+			}
+			res[next].crash = &rig.GoFailure{Kind: "counterexample", What: what, Input: c, Detail: c10hCrashDetail(stderr)}
+		default:
+			rig.Die("c10h: the child process ended (%v) before case %d of %d, not by a crash of the code under test: %s", werr, next, len(cases), tailStr(stderr, 3000))
+		}
+		next++
+	}
 }
 
 // c10hCrashDetail: the panic message and the last ~600 bytes of the child's stderr
@@ -676,6 +706,11 @@ func c10hSpawn(cases []c10hCase, res []c10hDone) (n int, phase, stderr string, s
 	}
 	cmd := exec.Command(exe, "c10hchild")
 	cmd.Env = append(os.Environ(), "VERIF_CHILD=1", "GOTRACEBACK=single")
+	if os.Getenv("GOMAXPROCS") == "" {
+		// several children run at a time; with one P per processor in each of them the runtimes
+		// spend more time waking and parking threads than the cases take
+		cmd.Env = append(cmd.Env, "GOMAXPROCS=4")
+	}
 	cmd.Stdin = &in
 	var errb bytes.Buffer
 	cmd.Stderr = &errb
@@ -739,6 +774,7 @@ loop:
 
 func c10h(e *env) {
 	w := rig.NewWriter(e.out, "C10H", e.tier, e.seed)
+	w.Res.Cases = []rig.Case{} // a replay that ends in a failure has no case
 	w.Shards = 16
 	thorough := e.tier == "thorough"
 	r := rig.NewRand(e.seed)
@@ -845,7 +881,7 @@ func c10h(e *env) {
 		}
 	}
 	w.Res.Exhaustive = thorough
-	w.Res.Rule = "the real chunked handler called directly over the fake memcached with a fault plan armed, one handler call per case: every command (set with a new value of 0..3 chunks, once with a TTL; add / replace of 0 and 2 chunks; append / prepend of 5 bytes and of one chunk payload; delete; touch and gat with TTL 0 and 3600; single-key get) on client key \"key\" in every key state (absent, present with an old value of 0, 1, 2, 3 chunks), plus set / get / delete on a 250-byte key holding 2 chunks, plus ONE get request naming the two client keys \"key\" and \"k2\" (in both orders; k2 holds 2 chunks, key is absent or holds 1 or 3 chunks; the follow-up reads are on the first named key); for each such scenario the fault-free call, then one case per (backend request index of the fault-free call, fault): thorough = each of the 13 error statuses binprot.DecodeError knows, connection cut before the request is applied, connection cut after it was applied and before its reply; quick = statuses not-found, not-stored and one more (rotating over the 13) plus the two cuts; and for scenarios with >= 3 backend requests two double-fault plans (out-of-memory at request 1 then a cut after apply at the last request; not-found at request 1 then busy at request 2); a bystander key of 2 chunks is stored beforehand; after the call a fault-free get and gat of the key on a fresh connection; every case runs in a child process (batches of 100), a child that dies is a failure with the case it was running as replay input; non-trivial = a fault beyond the first request or the key present (a two-key get always: k2 is present)"
+	w.Res.Rule = "the real chunked handler called directly over the fake memcached with a fault plan armed, one handler call per case: every command (set with a new value of 0..3 chunks, once with a TTL; add / replace of 0 and 2 chunks; append / prepend of 5 bytes and of one chunk payload; delete; touch and gat with TTL 0 and 3600; single-key get) on client key \"key\" in every key state (absent, present with an old value of 0, 1, 2, 3 chunks), plus set / get / delete on a 250-byte key holding 2 chunks, plus ONE get request naming the two client keys \"key\" and \"k2\" (in both orders; k2 holds 2 chunks, key is absent or holds 1 or 3 chunks; the follow-up reads are on the first named key); for each such scenario the fault-free call, then one case per (backend request index of the fault-free call, fault): thorough = each of the 13 error statuses binprot.DecodeError knows, connection cut before the request is applied, connection cut after it was applied and before its reply; quick = statuses not-found, not-stored and one more (rotating over the 13) plus the two cuts; and for scenarios with >= 3 backend requests two double-fault plans (out-of-memory at request 1 then a cut after apply at the last request; not-found at request 1 then busy at request 2); a bystander key of 2 chunks is stored beforehand; after the call a fault-free get and gat of the key on a fresh connection; the cases run in child processes (a few hundred consecutive cases per process), a child that dies is a failure with the case it was running as replay input; non-trivial = a fault beyond the first request or the key present (a two-key get always: k2 is present)"
 	if err := w.Finish([]string{"base.Bytes", "base.Harness", "gen.Consts_gen", "spec.MapSpec", "orca.Types", "handlers.Chunked", "handlers.ChunkedFaults", "checks.Check10h"},
 		"case10h", "check10h"); err != nil {
 		rig.Die("%v", err)
